@@ -1515,7 +1515,7 @@ func (r *recReport) Write(name string, s strategy.Strategy, snaps <-chan *asset.
 	wg.Wait()
 	r.mu.Lock()
 	r.events = append(r.events, "w:"+name+":"+s.Name())
-	last := math.NaN()
+	last := noOutcome
 	if len(os_) > 0 {
 		last = os_[len(os_)-1]
 	}
@@ -1587,7 +1587,34 @@ func (b *buyAt) Report(c <-chan *asset.Snapshot) *helper.Report {
 	return strategy.NewBuyAndHoldStrategy().Report(c)
 }
 
+// noOutcome marks "the strategy saw no snapshot, there is no outcome at all": a value no outcome can take (outcomes are ≥ -1), so that
+// it cannot be confused with an outcome that IS undefined (NaN)
+var noOutcome = -2.0
+
+// zeroTrader trades only on sessions that close at 0 (Buy, Sell, Buy, …): buying at 0 gives 1/0 = +Inf shares and selling them at 0
+// gives a balance of Inf·0 — an outcome that is undefined (NaN) from there on
+type zeroTrader struct{}
+
+func (*zeroTrader) Name() string { return "Zero Trader" }
+func (*zeroTrader) Compute(c <-chan *asset.Snapshot) <-chan strategy.Action {
+	zeros := 0
+	return helper.Map(c, func(s *asset.Snapshot) strategy.Action {
+		if s.Close == 0 {
+			zeros++
+			if zeros%2 == 1 {
+				return strategy.Buy
+			}
+			return strategy.Sell
+		}
+		return strategy.Hold
+	})
+}
+func (*zeroTrader) Report(c <-chan *asset.Snapshot) *helper.Report {
+	return strategy.NewBuyAndHoldStrategy().Report(c)
+}
+
 var btStrategies = map[string]func() strategy.Strategy{
+	"zero": func() strategy.Strategy { return &zeroTrader{} },
 	"at1":  func() strategy.Strategy { return &buyAt{1} },
 	"at2":  func() strategy.Strategy { return &buyAt{2} },
 	"at3":  func() strategy.Strategy { return &buyAt{3} },
@@ -1641,6 +1668,11 @@ func runBacktest(args []string) string {
 				}
 				snaps = append(snaps, &asset.Snapshot{Date: today.AddDate(0, 0, -(n-i)-back), Open: op, High: math.Max(op, price) + 1, Low: math.Max(0.5, math.Min(op, price)-1), Close: price, Volume: float64(100 + r.Intn(1000))})
 			}
+			if a == 0 && len(snaps) >= 6 && strings.Contains(","+args[3]+",", ",zero,") {
+				// two consecutive sessions that close at 0 (a suspended listing): the zero trader's outcome becomes undefined
+				snaps[len(snaps)-4].Close, snaps[len(snaps)-3].Close = 0, 0
+				snaps[len(snaps)-4].Low, snaps[len(snaps)-3].Low = 0, 0
+			}
 			if seed%7 == 0 && a == nassets-1 && nassets > 1 {
 				snaps = nil // an asset that is registered but has no snapshots at all
 			}
@@ -1686,7 +1718,7 @@ func runBacktest(args []string) string {
 				go func() { defer wg.Done(); as = helper.ChanToSlice(acts) }()
 				go func() { defer wg.Done(); os_ = helper.ChanToSlice(outs) }()
 				wg.Wait()
-				last := math.NaN()
+				last := noOutcome
 				if len(os_) > 0 {
 					last = os_[len(os_)-1]
 				}
@@ -1747,9 +1779,9 @@ func runBacktest(args []string) string {
 			}
 			for _, k := range keys(expect) {
 				e := expect[k]
-				if strings.HasSuffix(e, ","+hexOfFloat(math.NaN())) {
+				if strings.HasSuffix(e, ","+hexOfFloat(noOutcome)) {
 					// no snapshot inside the window: the direct evaluation has no outcome at all; DataReport records 0 (nothing gained)
-					e = strings.TrimSuffix(e, hexOfFloat(math.NaN())) + hexOfFloat(0)
+					e = strings.TrimSuffix(e, hexOfFloat(noOutcome)) + hexOfFloat(0)
 				}
 				if got[k] != e {
 					return fmt.Sprintf("ok mismatch:%s:%s!=%s", strings.ReplaceAll(k, " ", "_"), got[k], e)
@@ -1868,10 +1900,20 @@ func runBacktest(args []string) string {
 						}
 					}
 				}
-				for i := 1; i < len(outs); i++ {
-					if outs[i] > outs[i-1] {
-						return len(outs), fmt.Sprintf("unsorted:%s:%v>%v", file, outs[i], outs[i-1])
+				// non-increasing on the defined outcomes; an undefined outcome (NaN) ranks below every defined one
+				prevDef, seenUndef := math.Inf(1), false
+				for i := 0; i < len(outs); i++ {
+					if math.IsNaN(outs[i]) {
+						seenUndef = true
+						continue
 					}
+					if outs[i] > prevDef {
+						return len(outs), fmt.Sprintf("unsorted:%s:%v>%v", file, outs[i], prevDef)
+					}
+					if seenUndef {
+						return len(outs), fmt.Sprintf("unsorted:%s:defined-%v-after-undefined", file, outs[i])
+					}
+					prevDef = outs[i]
 				}
 				return len(outs), ""
 			}
@@ -1879,21 +1921,28 @@ func runBacktest(args []string) string {
 			// decimals cannot show differences below 0.01), and the index must present each asset's maximum
 			exact := func(k string) float64 {
 				v, _ := floatOfHex(strings.SplitN(expect[k], ",", 2)[1])
+				if v == noOutcome {
+					return math.NaN() // no snapshot in the window: nothing to rank
+				}
 				return v
 			}
 			rowRe := regexp.MustCompile(`<a href="[^"]* - ([^"]*)\.html">`)
 			for _, n := range names {
 				raw, _ := os.ReadFile(filepath.Join(dir, n+".html"))
-				var prev float64
-				for i, m := range rowRe.FindAllStringSubmatch(string(raw), -1) {
+				prev, undef := math.Inf(1), false
+				for _, m := range rowRe.FindAllStringSubmatch(string(raw), -1) {
 					sn0 := html.UnescapeString(m[1])
 					if btNameCount[sn0] != 1 {
-						prev = math.Inf(1) // two strategies share this name: their rows cannot be told apart here
+						prev, undef = math.Inf(1), false // two strategies share this name: their rows cannot be told apart here
 						continue
 					}
 					v := exact(n + "/" + byName[sn0])
-					if i > 0 && v > prev {
-						return fmt.Sprintf("ok unsorted-exact:%s:%s:%v>%v", n, strings.ReplaceAll(m[1], " ", "_"), v, prev)
+					if math.IsNaN(v) {
+						undef = true // an undefined outcome: ranks below every defined one
+						continue
+					}
+					if v > prev || undef {
+						return fmt.Sprintf("ok unsorted-exact:%s:%s:%v>%v(undefined-before=%v)", n, strings.ReplaceAll(m[1], " ", "_"), v, prev, undef)
 					}
 					prev = v
 				}
@@ -1909,9 +1958,12 @@ func runBacktest(args []string) string {
 				}
 				v := exact(an + "/" + byName[sn])
 				for _, s := range ss {
-					if o := exact(an + "/" + skey(s)); o > v {
+					if o := exact(an + "/" + skey(s)); o > v || (math.IsNaN(v) && !math.IsNaN(o)) {
 						return fmt.Sprintf("ok best-not-max:%s:%s:%v<%v", an, strings.ReplaceAll(sn, " ", "_"), v, o)
 					}
+				}
+				if math.IsNaN(v) {
+					continue // an asset all of whose outcomes are undefined: ranks after the others, nothing to compare
 				}
 				if i > 0 && v > prevBest {
 					return fmt.Sprintf("ok unsorted-exact:index:%s:%v>%v", an, v, prevBest)
